@@ -159,7 +159,7 @@ DoInsert(t, o, lsb0, xv, p0) ==
   LET n == Len(o.v)
       p1 == IF IsNone(p0) THEN o.p ELSE p0
       p == IF p1 < 0 THEN p1 + n ELSE p1 IN
-  IF IsNone(p0) /\ ~IsStream(o.c) THEN Raises({"TypeError"})
+  IF IsNone(p0) /\ ~IsStream(o.c) THEN Raises(AnyDoc)      \* (no property names the exception type here)
   ELSE IF Len(xv) = 0 THEN
        (IF 0 <= p /\ p <= n THEN Mutated(t, o, o.v, o.p) ELSE MayRaise(Mutated(t, o, o.v, o.p)))
   ELSE IF ~(0 <= p /\ p <= n) THEN Raises(AnyDoc)
@@ -170,7 +170,7 @@ DoOverwrite(t, o, lsb0, xv, p0) ==
   LET n == Len(o.v)
       p1 == IF IsNone(p0) THEN o.p ELSE p0
       p == IF p1 < 0 THEN p1 + n ELSE p1 IN
-  IF IsNone(p0) /\ ~IsStream(o.c) THEN Raises({"TypeError"})
+  IF IsNone(p0) /\ ~IsStream(o.c) THEN Raises(AnyDoc)      \* (no property names the exception type here)
   ELSE IF Len(xv) = 0 THEN
        (IF 0 <= p /\ p <= n THEN Mutated(t, o, o.v, o.p) ELSE MayRaise(Mutated(t, o, o.v, o.p)))
   ELSE IF ~(0 <= p /\ p <= n) THEN Raises(AnyDoc)
@@ -341,7 +341,8 @@ DoCount(o, val) == OkV(VSmall(CountBit(o.v, IF val # 0 THEN 1 ELSE 0)))
 
 DoCut(o, lsb0, bits, a, b, cnt) ==
   LET n == Len(o.v) IN
-  IF ~WinOK(n, a, b) \/ (~IsNone(cnt) /\ cnt < 0) \/ bits <= 0 THEN Raises({"ValueError"})
+  IF bits <= 0 THEN Raises(AnyDoc)
+  ELSE IF ~WinOK(n, a, b) \/ (~IsNone(cnt) /\ cnt < 0) THEN Raises({"ValueError"})
   ELSE LET ws == WinStart(n, a)  we == WinEnd(n, b)
            full == CeilDiv(we - ws, bits)
            k == IF IsNone(cnt) THEN full ELSE MinI(cnt, full)
@@ -389,7 +390,7 @@ DoAllAny(isAll, o, lsb0, val, hasPos, ps) ==
          stopAt == {i \in 1..Len(ps) : ~IndexValid(n, ps[i]) \/ decides(i)} IN
      IF stopAt = {} THEN OkV(VBool(isAll))
      ELSE LET i == Min(stopAt) IN
-          IF ~IndexValid(n, ps[i]) THEN Raises({"IndexError"}) ELSE OkV(VBool(~isAll))
+          IF ~IndexValid(n, ps[i]) THEN Raises(AnyDoc) ELSE OkV(VBool(~isAll))
 
 DoJoin(o, parts) ==
   LET k == Len(parts)
@@ -403,7 +404,7 @@ DoJoin(o, parts) ==
 DoGetPos(o, which) ==
   IF ~IsStream(o.c) THEN Raises({"*", "Internal"})
   ELSE IF which = "bytepos" THEN
-       (IF o.p % 8 # 0 THEN Raises({"ByteAlignError"}) ELSE OkV(VSmall(o.p \div 8)))
+       (IF o.p % 8 # 0 THEN Raises(AnyDoc) ELSE OkV(VSmall(o.p \div 8)))
   ELSE OkV(VSmall(o.p))
 
 DoSetPos(t, o, which, p0) ==
@@ -419,7 +420,7 @@ DoByteAlign(t, o) ==
 
 \* read(n) / peek(n) with an integer: the next n bits as a new stream object
 DoReadBits(t, o, lsb0, nb, advance) ==
-  IF nb < 0 THEN Raises({"ValueError"})
+  IF nb < 0 THEN Raises(AnyDoc)
   ELSE IF nb > Len(o.v) - o.p THEN Raises({"ReadError"})
   ELSE LET w == Mir(lsb0, Sub(Mir(lsb0, o.v), o.p, o.p + nb)) IN
        Ok(<<VNew(o.c, w)>>, <<"">>, IF advance THEN One(t, Rec(o.c, o.v, o.p + nb)) ELSE NoUpd)
@@ -464,7 +465,7 @@ DoCopy(t, o, viaModule) ==
   ELSE [Ok(<<VNew(o.c, o.v)>>, <<"?">>, NoUpd) EXCEPT !.free = {"retpos"}]
 
 DoToBytes(o, how) ==
-  IF how = "prop" /\ Len(o.v) % 8 # 0 THEN Raises({"ValueError"})
+  IF how = "prop" /\ Len(o.v) % 8 # 0 THEN Raises(AnyDoc)
   ELSE LET pb == PadToByte(o.v)
            nb == Len(pb) \div 8 IN
        OkV(VBytes([k \in 1..nb |-> UVal(Sub(pb, 8 * (k - 1), 8 * k))]))
@@ -519,7 +520,7 @@ CoreStep(objs, opts, call) ==
          LET c == call.sa[1]
              p == IF IsStream(c) THEN OrElse(i1, 0) ELSE -1
              pp == IF p < 0 /\ IsStream(c) THEN p + Len(xv1) ELSE p IN
-         IF IsStream(c) /\ (pp < 0 \/ pp > Len(xv1)) THEN Raises({"ValueError"})
+         IF IsStream(c) /\ (pp < 0 \/ pp > Len(xv1)) THEN Raises(AnyDoc)
          ELSE IF ~IsStream(c) /\ ~IsNone(i1) THEN Raises(AnyDoc)
          ELSE OkV(VObj(c, xv1, pp))
     [] op = "len" -> DoLen(o)
